@@ -147,6 +147,17 @@ const SUBST: &[char] = &[
     '2', '3', '4', '5', '6', '7', '-', '0', '1', '8', '9', '=', 'A', 'Z', ' ', 'é', '\u{212a}',
 ];
 
+/// Characters outside ASCII whose Unicode upper- or lower-case form is `c`.
+fn confusables(c: char) -> Vec<char> {
+    match c.to_ascii_lowercase() {
+        's' => vec!['\u{17f}'],
+        'i' => vec!['\u{131}', '\u{130}'],
+        'k' => vec!['\u{212a}'],
+        'a' => vec!['\u{e5}', '\u{212b}'],
+        _ => vec![],
+    }
+}
+
 fn systematic_edits(t: &str, full: bool) -> Vec<String> {
     let chars: Vec<char> = t.chars().collect();
     let mut out = vec![];
@@ -163,6 +174,17 @@ fn systematic_edits(t: &str, full: bool) -> Vec<String> {
             c[i] = s;
             out.push(c.into_iter().collect());
         }
+    }
+    // non-ASCII characters that Unicode case mapping turns into the very letter they replace
+    for i in 0..chars.len() {
+        for c2 in confusables(chars[i]) {
+            let mut c = chars.clone();
+            c[i] = c2;
+            out.push(c.into_iter().collect());
+        }
+    }
+    if let Some(i) = t.find("ss") {
+        out.push(format!("{}{}{}", &t[..i], '\u{df}', &t[i + 2..]));
     }
     // case
     out.push(t.to_ascii_uppercase());
@@ -314,8 +336,16 @@ impl Check for C16 {
         let cand: String = match kind {
             0 => {
                 let i = e.below(chars.len());
-                chars[i] = *e.pick(SUBST);
-                ctx.class("edit-substitute");
+                let conf: Vec<usize> = (0..chars.len()).filter(|j| !confusables(chars[*j]).is_empty()).collect();
+                if !conf.is_empty() && e.ratio(1, 3) {
+                    let j = *e.pick(&conf);
+                    let cs = confusables(chars[j]);
+                    chars[j] = *e.pick(&cs);
+                    ctx.class("edit-unicode-confusable");
+                } else {
+                    chars[i] = *e.pick(SUBST);
+                    ctx.class("edit-substitute");
+                }
                 chars.into_iter().collect()
             }
             1 => {
